@@ -91,6 +91,12 @@ Theorem C15_locals_untouched : forall w st k, m_amb (fst (mstep gen_desc w st (O
 Proof. exact (locals_untouched_thm gen_desc). Qed.
 Print Assumptions C15_locals_untouched.
 
+(* the model's explicit "dangling object id" outcome (a global bound to an object that does not exist) is never
+   produced: no theorem above holds because of a totalised lookup *)
+Theorem C15_no_dangling : forall w h o, moutcome gen_desc w (M w h) o <> Dangling.
+Proof. exact (no_dangling_thm gen_desc gen_desc_ok). Qed.
+Print Assumptions C15_no_dangling.
+
 (* cached positions are validated by name: whatever hint an AST node holds, lookup finds the named entry *)
 Theorem C15_hints_safe : forall w h n hint,
   let t := es_tabs (sn_engine (m_live (M w h))) in
